@@ -146,6 +146,36 @@ def check_identity(ctx, case, name, cached, orig, res, smap, all_subs):
 @check("C08.subst")
 def c_subst(ctx, case):
     e, d, kw = case
+    d0 = dict(d)
+    try:
+        _c_subst(ctx, case)
+    finally:
+        if kw:
+            # history: the SAME map object used again, now without the keyword assignments --
+            # names only the earlier call mentioned must be left alone
+            ctx.case(None)
+            ctx.count("map_reused_after_kwargs_call")
+            want = refsub(e, list(d0.items()))
+            try:
+                got = substitute(e, d, mapper_cls=SubstitutionMapper)
+            except RecursionError:
+                raise
+            except Exception as ex:  # noqa: BLE001
+                got = ex
+            if isinstance(got, Exception) or not normal.typed_eq(got, want):
+                want_c = refsub(e, list(d0.items()), collapse_cse=True)
+                explained = not isinstance(got, Exception) and normal.typed_eq(got, want_c) \
+                    and has_zero_cse(e, list(d0.items()))
+                ctx.fail("C08.subst", case, "map-reused:tree-differs",
+                         f"substitute(e, m, **{_m(kw)}) and then substitute(e, m) with the same "
+                         f"map object m={_m(d0)}: e={G.src(e)} gave "
+                         f"{G.src(got) if not isinstance(got, Exception) else repr(got)}, expected "
+                         f"{G.src(want)} (m is now {_m(d)})",
+                         finding=KF_CSE0 if explained else None)
+
+
+def _c_subst(ctx, case):
+    e, d, kw = case
     merged, eps = entry_points(d, kw)
     smap = list(merged.items())
     want = refsub(e, smap)
